@@ -385,9 +385,26 @@ def gen_queries(rng: random.Random, s: Dict[str, Any]) -> str:
     return "\n".join(ops + fragments) + "\n"
 
 
+def underscore_names(rng: random.Random, s: Dict[str, Any], schema: str, queries: str) -> Tuple[str, str]:
+    """Hasura-style names: some input / enum types get a leading underscore (`_in3_exp`, `_en1`) - legal GraphQL, and a
+    Python class name that conventions treat as private.  Done on the texts (whole-word replacement of the type name)."""
+    import re
+
+    if rng.random() >= 0.35:
+        return schema, queries
+    names = [n for n in list(s["inputs"]) + list(s["enums"]) if rng.random() < 0.4]
+    for n in names:
+        new = "_" + n.lower() + ("_exp" if n in s["inputs"] else "")
+        schema = re.sub(rf"\b{n}\b", new, schema)
+        queries = re.sub(rf"\b{n}\b", new, queries)
+    return schema, queries
+
+
 def gen_case(rng: random.Random) -> Dict[str, Any]:
     s = gen_schema(rng)
-    return {"schema": schema_sdl(s), "queries": gen_queries(rng, s), "shape": s["shape"]}
+    schema, queries = schema_sdl(s), gen_queries(rng, s)
+    schema, queries = underscore_names(rng, s, schema, queries)
+    return {"schema": schema, "queries": queries, "shape": s["shape"]}
 
 
 # --------------------------------------------------------------------------------------------
@@ -1160,6 +1177,13 @@ def unit_correspondence(ctx: Ctx, st: Optional[LeanStatus], res: Result) -> None
         sdl = schema_sdl(s)
         names = list(s["inputs"])
         enum_names = list(s["enums"])
+        if rng.random() < 0.35:  # underscore-prefixed type names (see underscore_names)
+            import re
+            ren = {n: "_" + n.lower() + ("_exp" if n in s["inputs"] else "") for n in names + enum_names if rng.random() < 0.4}
+            for a, b in ren.items():
+                sdl = re.sub(rf"\b{a}\b", b, sdl)
+            names = [ren.get(n, n) for n in names]
+            enum_names = [ren.get(n, n) for n in enum_names]
         root_lists: List[Optional[List[str]]] = [None, []]
         for _ in range(3):
             root_lists.append([rng.choice(names) for _ in range(rng.randint(1, 3))] if names else [])
